@@ -243,6 +243,13 @@ pub fn update_atoms() -> Vec<AtomSpec> {
     v.push(AtomSpec::plain(empty("a.z.", ru::T_IXFR, ru::CLASS_NONE, 0)));
     v.push(AtomSpec::plain(empty("a.z.", ru::T_MAILB, ru::CLASS_NONE, 0)));
     v.push(AtomSpec::plain(empty("a.z.", ru::T_MAILA, ru::CLASS_NONE, 0)));
+    // a zone-class RR of a typed-RDATA type with RDLENGTH 0 (passes the prescan, which looks at the
+    // type only): every type the add arm treats specially and one ordinary type, apex and non-apex
+    for o in ["z.", "a.z."] {
+        for t in [ru::T_SOA, ru::T_CNAME, ru::T_NS, ru::T_A] {
+            v.push(AtomSpec::plain(empty(o, t, ru::CLASS_IN, 60)));
+        }
+    }
     // opaque-RDATA type NULL (10): add, delete RR, delete RRset, and "delete RRset" WITH RDATA (FORMERR)
     v.push(AtomSpec::plain(Rr::new("a.z.", T_NULL, ru::CLASS_IN, 60, vec![0xaa, 0xbb])));
     v.push(AtomSpec::plain(Rr::new("a.z.", T_NULL, ru::CLASS_NONE, 0, vec![0xaa, 0xbb])));
@@ -429,6 +436,22 @@ pub fn m2b(thorough: bool) -> Vec<MsgSpec> {
                     v.push(MsgSpec { prereqs: vec![], updates: vec![e1.clone(), x.clone(), e2.clone()] });
                 }
             }
+        }
+    }
+    // a data-less zone-class RR followed (and preceded) by a well-formed RR of the same type and owner
+    for o in ["z.", "a.z."] {
+        let wf: Vec<AtomSpec> = vec![
+            AtomSpec::soa_rel(o, ru::CLASS_IN, 60, 1, 2),
+            AtomSpec::soa_rel(o, ru::CLASS_IN, 60, u32::MAX, 2),
+            AtomSpec::soa_rel(o, ru::CLASS_IN, 60, 0, 2),
+            AtomSpec::plain(cname(o, 60, "b.z.")),
+            AtomSpec::plain(ns(o, 60, "n2.o.")),
+            AtomSpec::plain(a(o, 60, 2)),
+        ];
+        for w in wf {
+            let e = AtomSpec::plain(empty(o, w.rr.rtype, ru::CLASS_IN, 60));
+            v.push(MsgSpec { prereqs: vec![], updates: vec![e.clone(), w.clone()] });
+            v.push(MsgSpec { prereqs: vec![], updates: vec![w.clone(), e.clone()] });
         }
     }
     v
